@@ -2,7 +2,7 @@
    Statements only; proofs in Parse_proofs.v. [serve] is the model of readPacket + the parsers +
    the dispatch of BaseClient.serve on a byte stream; a Go panic is the explicit outcome
    [Panic]/[EndPanic]; [EvAlloc n] records every make([]byte, n) for a packet body. *)
-From MQ Require Import Base Codec Inbound Parse ParseSpec Parse_proofs ParsePending ParsePending_proofs ParseExit ParseExit_proofs ParseResub ParseResub_proofs.
+From MQ Require Import Base Codec Inbound Parse ParseSpec Parse_proofs ParsePending ParsePending_proofs ParseExit ParseExit_proofs ParseResub ParseResub_proofs ParseMux ParseMux_proofs.
 Open Scope N_scope.
 
 (* for every byte string handed to each packet parser: no panic *)
@@ -171,6 +171,12 @@ Theorem C06_resubscribe_never_panics : forall ops id req,
   In req (resubscribe (rc_history [] ops)) -> sub_pack id req <> Panic.
 Proof. exact resubscribe_never_panics. Qed.
 
+(* a broker-chosen topic name reaches topicFilter.Match (ServeMux) on the reader goroutine: for
+   EVERY topic, the empty one included, strings.Split yields at least one level, which is all the
+   level-by-level comparison of filter.go:52-66 ever indexes ([fmatch] tests the bound first) *)
+Theorem C06_topic_always_has_a_level : forall topic, exists l r, split_levels topic = l :: r.
+Proof. exact split_levels_nonempty. Qed.
+
 Print Assumptions C06_parsers_no_panic.
 Print Assumptions C06_no_panic.
 Print Assumptions C06_fuel_irrelevant.
@@ -196,3 +202,4 @@ Print Assumptions C06_error_observable_when_done.
 Print Assumptions C06_close_before_done.
 Print Assumptions C06_resubscription_ignores_suback.
 Print Assumptions C06_resubscribe_never_panics.
+Print Assumptions C06_topic_always_has_a_level.
